@@ -41,6 +41,12 @@ theorem replicate_inCnr (e : Env) (c : Ctx) (q : Nat) (ns : List Nat) : (replica
 theorem replicate_heads (e : Env) (c : Ctx) (q : Nat) (ns : List Nat) : (replicate e c q ns).heads = c.heads := rfl
 theorem replicate_unchk (e : Env) (c : Ctx) (q : Nat) (ns : List Nat) : (replicate e c q ns).unchk = c.unchk := rfl
 
+theorem dec32_of_ne_zero {n : Nat} (h : n ≠ 0) : dec32 n = n - 1 := by
+  unfold dec32; simp [h]
+
+theorem dec32_le {n : Nat} (h : ¬ n = 0) : dec32 n ≤ n := by
+  rw [dec32_of_ne_zero h]; omega
+
 /-- what one loop iteration may change -/
 structure StepMono (c c' : Ctx) (l l' : Loop) : Prop where
   need : c.need = true → c'.need = true
@@ -55,16 +61,16 @@ theorem nodeStep_mono (e : Env) (c : Ctx) (l : Loop) (n : Nat) :
   simp only
   split_ifs
   · exact ⟨fun h => h, fun _ h => h, Nat.le_refl _, Nat.le_refl _, rfl⟩
-  · exact ⟨fun _ => rfl, fun _ h => h, Nat.le_refl _, by simp, rfl⟩
-  · exact ⟨fun h => h, fun _ h => h, by simp [onMaint], by simp [onMaint], rfl⟩
+  · exact ⟨fun _ => rfl, fun _ h => h, Nat.le_refl _, dec32_le (by assumption), rfl⟩
+  · exact ⟨fun h => h, fun _ h => h, by simp [onMaint], dec32_le (by assumption), rfl⟩
   · split
     · exact ⟨fun h => h, fun _ h => h, Nat.le_refl _, Nat.le_refl _, rfl⟩
     · exact ⟨fun h => h, fun _ h => h, Nat.le_refl _, Nat.le_refl _, rfl⟩
     · split
       · exact ⟨fun h => h, fun _ h => by simp [h], Nat.le_refl _, Nat.le_refl _, rfl⟩
-      · exact ⟨fun h => h, fun _ h => by simp [onMaint, h], by simp [onMaint], by simp [onMaint], rfl⟩
+      · exact ⟨fun h => h, fun _ h => by simp [onMaint, h], by simp [onMaint], dec32_le (by assumption), rfl⟩
       · exact ⟨fun h => h, fun _ h => by simp [h], Nat.le_refl _, Nat.le_refl _, rfl⟩
-      · exact ⟨fun h => h, fun _ h => by simp [h], Nat.le_refl _, by simp, rfl⟩
+      · exact ⟨fun h => h, fun _ h => by simp [h], Nat.le_refl _, dec32_le (by assumption), rfl⟩
 
 theorem walk_mono (e : Env) (ns : List Nat) (c : Ctx) (l : Loop) :
     StepMono c (walk e c l ns).1 l (walk e c l ns).2 := by
@@ -202,7 +208,10 @@ theorem nodeStep_head (e : Env) (c : Ctx) (l : Loop) (n : Nat) (h0 : l.shortage 
       | .err => (c1, l)
       | .holds => ({ c1 with cache := (n, true) :: c.cache }, { l with shortage := l.shortage - 1 }) := by
   simp only [nodeStep, seen, h0, hl, hf, hc, if_false, Bool.false_eq_true]
-  cases e.ans n <;> rfl
+  cases e.ans n
+  all_goals first
+    | rfl
+    | simp only [dec32_of_ne_zero h0]
 
 /-- one loop iteration keeps the witnesses, or adds the node and lowers the shortage by one -/
 theorem nodeStep_wit (e : Env) (c : Ctx) (l : Loop) (a : Nat) (D : List Nat) (w : Wit e c D)
